@@ -33,6 +33,17 @@ func (e *env) setupHosts() bool {
 	case "nested":
 		depth = 2
 	}
+	if e.spec.Host == "root" {
+		// the provider's own root scope (what a singleton constructor gets as its Scope, what
+		// Resolve[godi.Scope](provider) returns): per-cycle scopes are opened from it
+		root, err := godi.Resolve[godi.Scope](e.p)
+		if err != nil || root == nil {
+			e.poisoned = fmt.Sprintf("Resolve[godi.Scope](provider) failed: %v", err)
+			return false
+		}
+		e.rootHandle = root
+		return true
+	}
 	var cr creator = e.p
 	for i := 0; i < depth; i++ {
 		var ctx context.Context = e.long
@@ -78,6 +89,9 @@ func (e *env) cycle() {
 	if len(e.hosts) > 0 {
 		hostCr = e.hosts[len(e.hosts)-1]
 		baseLevel = int8(len(e.hosts))
+	}
+	if e.rootHandle != nil {
+		hostCr, baseLevel = e.rootHandle, 1
 	}
 	levels := make([]int8, n)
 	for i := 0; i < n; i++ {
@@ -299,6 +313,7 @@ func (e *env) runCycles() (stats []cpStats) {
 		stats = append(stats, e.checkpoint("after closing the host scope", 2*sp.N, false))
 	}
 	e.hosts = nil
+	e.rootHandle = nil
 	// provider.Close releases everything
 	e.safely("provider.Close", func() { _ = e.p.Close() })
 	e.reg.mu.Lock()
